@@ -814,8 +814,8 @@ def compare(ctx: core.Ctx, cases: list[dict], drv: core.Driver, label="corr"):
     res = [None] * len(cases)
     for i, r in zip(par, core.pmap(run_impl_safe, [cases[i] for i in par], chunksize=4)):
         res[i] = r
-    for i in spark:
-        res[i] = run_impl_safe(cases[i])
+    for i, r in zip(spark, core.fresh_process_map(run_impl_safe, [cases[i] for i in spark])):
+        res[i] = r
     mres = drv.pbatch(reqs)
     problems = []
     sql_items = []  # small standalone cases on which the regenerated SQL is evaluated by Rel.eval (translation validation)
